@@ -5,7 +5,8 @@
       worker:  claim ticket y
                for x in 0..mbW-1:
                  if y > 0: waitFor(y-1, min(x+2, mbW))      phases [wph], on row y-1's rowState
-                 macroblock body (read top[x], top[x+1]; compute; write top[x], out)   -- one step, as in L1
+                 macroblock body: read top[x], top[x+1]   -- sub-step 1 (DCompute -> DHold)
+                                  compute; write top[x], out -- sub-step 2 (DHold -> DSig), on the values read in sub-step 1
                  signal(y, x+1)                             phases [sph], on row y's rowState
       recorder: for y in 0..mbH-1: waitFor(y, mbW); record row y
 
@@ -49,7 +50,8 @@ Section Detailed.
   | DIdle
   | DExited
   | DWait (y x : nat) (tl l : V) (ph : wph)     (* y > 0: inside waitFor(y-1, needed x) before MB x *)
-  | DCompute (y x : nat) (tl l : V)             (* the wait is over: macroblock body next *)
+  | DCompute (y x : nat) (tl l : V)             (* the wait is over: the body reads top[x], top[x+1] next *)
+  | DHold (y x : nat) (tl l t tr : V)           (* contexts read (t, tr); computing; writes top[x], out next *)
   | DSig (y x : nat) (tl' l' : V) (ph : sph).   (* inside signal(y, x+1); tl' l' = local context for x+1 *)
 
   Inductive dr := RWait (ph : wph) | RReady.    (* recorder: inside waitFor(recRow, mbW) / about to record *)
@@ -115,8 +117,14 @@ Section Detailed.
                       (d_top s) (d_out s) (d_tokens s))
         end
     | Some (DCompute y x tl l) =>
+        (* read-neighbour sub-step: the contexts of the row above (fillPredContextParallel) *)
         let t := snd (d_top s x) in
         let tr := if S x <? mbW then snd (d_top s (S x)) else v0 in
+        Some (mkD (d_next s) (setw s i (DHold y x tl l t tr)) (d_rec s) (d_recRow s)
+                  (d_done s) (d_adone s) (d_nwait s) (d_mu s) (d_top s) (d_out s) (d_tokens s))
+    | Some (DHold y x tl l t tr) =>
+        (* write-own sub-step: mode decision, residuals, reconstruction on the values READ
+           EARLIER, then export: top[x], the output of macroblock (x,y) *)
         let rv := f y x tl t tr l in
         Some (mkD (d_next s) (setw s i (DSig y x t rv QStore)) (d_rec s) (d_recRow s)
                   (d_done s) (upd1 (d_adone s) y (S x)) (d_nwait s) (d_mu s)
@@ -196,6 +204,7 @@ Section Detailed.
     | DExited => Exited
     | DWait y x tl l _ => AtMB y x tl l
     | DCompute y x tl l => AtMB y x tl l
+    | DHold y x tl l _ _ => AtMB y x tl l
     | DSig y x tl' l' _ => if S x <? mbW then AtMB y (S x) tl' l' else Idle
     end.
 
@@ -208,4 +217,5 @@ Arguments DIdle {V}.
 Arguments DExited {V}.
 Arguments DWait {V} y x tl l ph.
 Arguments DCompute {V} y x tl l.
+Arguments DHold {V} y x tl l t tr.
 Arguments DSig {V} y x tl' l' ph.
